@@ -43,6 +43,7 @@ impl Fsyncer {
             cv: Condvar::new(),
             s: Mutex::new(State::Idle),
         });
+        #[cfg(not(nomt_verif))]
         let _thread = std::thread::Builder::new()
             .name(name)
             .spawn({
@@ -52,6 +53,13 @@ impl Fsyncer {
                 }
             })
             .expect("failed to spawn fsyncer thread");
+        #[cfg(nomt_verif)]
+        crate::verif::spawn_named(name, {
+            let shared = shared.clone();
+            move || {
+                worker(fd, shared);
+            }
+        });
         Fsyncer { shared }
     }
 
@@ -106,6 +114,13 @@ fn worker(fd: Arc<File>, shared: Arc<Shared>) {
         assert!(matches!(&*s_guard, State::Started | State::Done(_)));
         drop(s_guard);
 
+        #[cfg(nomt_verif)]
+        let sync_result = {
+            use std::os::fd::AsRawFd as _;
+            crate::verif::io(fd.as_raw_fd(), crate::verif::Op::Fsync, "fsyncer.fsync")
+                .and_then(|()| fd.sync_all())
+        };
+        #[cfg(not(nomt_verif))]
         let sync_result = fd.sync_all();
 
         let mut s_guard = shared.s.lock();
